@@ -33,12 +33,73 @@ let () =
            Printf.printf "%s %s\n" (hex (vec_dist2 fops a b)) (String.concat " " (List.map hex (vec_grad fops a b)))
          | "DV" -> let pbc = ni () <> 0 in let hc = ni () <> 0 in let cell = v3 () in let a = v3 () in let b = v3 () in
            let c = if hc then Some cell else None in
-           Printf.printf "%s %s\n" (hex (dv_dist2 fops pbc c a b)) (p3 (dv_lgrad fops pbc c a b))
+           Printf.printf "%s %s %s\n" (hex (dv_dist2 fops pbc c a b)) (p3 (dv_lgrad fops pbc c a b)) (p3 (dv_rgrad fops pbc c a b))
          | "ISC" -> let a = nf () in let b = nf () in let l = nf () in Printf.printf "%s\n" (hex (sc_interp fops a b l))
          | "IV3" -> let a = v3 () in let b = v3 () in let l = nf () in Printf.printf "%s\n" (p3 (v3_interp fops a b l))
-         | "IUV" -> let a = v3 () in let b = v3 () in let l = nf () in Printf.printf "%s\n" (p3 (uv_interp fops a b l))
+         | "IUV" -> let a = v3 () in let b = v3 () in let l = nf () in
+           Printf.printf "%s %s\n" (p3 (uv_interp fops a b l)) (hex (if uv_interp_undefined fops a b l then 1.0 else 0.0))
+         | "IQ" -> let a = q4 () in let b = q4 () in let l = nf () in
+           Printf.printf "%s %s\n" (p4 (q_interp fops a b l)) (hex (if q_interp_undefined fops pi a b l then 1.0 else 0.0))
+         | "AC" -> (match next () with
+             | "UV" -> let a = v3 () in Printf.printf "%s\n" (p3 (uv_constrain fops a))
+             | _ -> let a = q4 () in Printf.printf "%s\n" (p4 (q_constrain fops a)))
+         | "INN" -> (match next () with
+             | "UV" | "V3" -> let a = v3 () in let b = v3 () in
+               Printf.printf "%s %s\n" (hex (v3dot fops a b)) (hex (v3norm2 fops a))
+             | "Q" -> let a = q4 () in let b = q4 () in Printf.printf "%s %s\n" (hex (qdot fops a b)) (hex (qnorm2 fops a))
+             | _ -> let n = ni () in let a = List.init n (fun _ -> nf ()) in let b = List.init n (fun _ -> nf ()) in
+               Printf.printf "%s %s\n" (hex (vec_inner fops a b)) (hex (vec_inner fops a a)))
+         | "CD" | "CW" ->
+           let kind = next () in let wc = nf () in let n = ni () in
+           let k = (match kind with
+               | "distance" | "eulerTheta" | "polarTheta" | "tilt" | "orientationAngle" | "dihedralCoeff2" -> KScalar
+               | "dihedral" | "spinAngle" | "eulerPhi" | "eulerPsi" | "polarPhi" | "dihedralSum" -> KPeriodic (360.0, wc)
+               | "distanceDir" -> KUnit
+               | "orientation" -> KQuat
+               | "cartesian" | "distancePairs" -> KVector
+               | s when String.length s > 9 && String.sub s 0 9 = "scripted:" ->
+                 KPeriodic (fl (String.sub s 9 (String.length s - 9)), wc)
+               | _ -> KScalar) in
+           let rd () = (match k with
+               | KScalar | KPeriodic _ -> VS (nf ())
+               | KUnit | KVec3 _ -> V3 (v3 ())
+               | KQuat -> VQ (q4 ())
+               | KVector -> VL (List.init n (fun _ -> nf ()))) in
+           let pv v = (match v with
+               | VS x -> hex x | V3 x -> p3 x | VQ x -> p4 x | VL x -> String.concat " " (List.map hex x)) in
+           if w.(0) = "CD" then begin
+             let a = rd () in let b = rd () in
+             (match comp_dist2 fops pi k a b, comp_lgrad fops pi k a b, comp_rgrad fops pi k a b with
+              | Some d, Some g, Some r -> Printf.printf "%s %s %s\n" (hex d) (pv g) (pv r)
+              | _ -> Printf.printf "typeerror\n")
+           end else begin
+             let a = rd () in Printf.printf "%s\n" (pv (comp_wrap fops k a))
+           end
+         | "MR" -> let pp = nf () in let c = nf () in let x0 = nf () in let x1 = nf () in
+           let out = ref [] in
+           while !p < Array.length w do let l = nf () in out := hex (mr_center fops c pp x0 x1 l) :: !out done;
+           Printf.printf "%s\n" (String.concat " " (List.rev !out))
+         | "OM" -> let pp = nf () in let c = nf () in let h1 = nf () in let k1 = nf () in let _s1 = nf () in
+           let h2 = nf () in let k2 = nf () in let _s2 = nf () in
+           Printf.printf "%s %s\n" (hex (opes_merge_center fops c pp h1 k1 h2 k2)) (hex (h1 +. h2))
          | "IVEC" -> let n = ni () in let a = List.init n (fun _ -> nf ()) in let b = List.init n (fun _ -> nf ()) in let l = nf () in
            Printf.printf "%s\n" (String.concat " " (List.map hex (vec_interp fops a b l)))
+         | "OBJ" -> let p0 = nf () in let c0 = nf () in
+           (* the history is run one operation at a time (pv_run on singleton lists; pv_run_app in the proofs) so that the
+              "X" operation (wrap both values with the parameters in force, then distance) can read the state in force *)
+           let st = ref { pv_P = p0; pv_c = c0 } in
+           let outs = ref [] in
+           let step o = let (s', out) = pv_run fops !st [o] in st := s'; outs := List.concat out :: !outs in
+           while !p < Array.length w do
+             (match next () with
+              | "M" -> let pp = nf () in let c = nf () in step (PvModify (pp, c))
+              | "W" -> let x = nf () in step (PvWrap x)
+              | "D" -> let a = nf () in let b = nf () in step (PvDist2 (a, b))
+              | "X" -> let a = nf () in let b = nf () in outs := pv_wrapped_dist2 fops !st a b :: !outs
+              | _ -> ())
+           done;
+           let fl = List.concat (List.rev !outs) in
+           Printf.printf "%s\n" (if fl = [] then "-" else String.concat " " (List.map hex fl))
          | _ -> Printf.printf "?\n")
       end
     done
